@@ -100,9 +100,14 @@ def evaluate(spec):
             b = baseline(key, bs)
             bl.append(b["actors"][0][0])
         viols = c12.judge(spec, result, bl)
+        info = {"baselines": bl}
         if not spec.get("recursion_delta"):
-            viols += _recursion_recheck(spec, c12.rec_mismatches(spec, result, bl), "history:recursion")
-        return viols, result, {"baselines": bl}
+            mm = c12.rec_mismatches(spec, result, bl)
+            extra = _recursion_recheck(spec, mm, "history:recursion")
+            viols += extra
+            info["rec_mismatches"] = len(mm)
+            info["rec_mismatches_not_robust"] = len(mm) - len(extra)
+        return viols, result, info
     elif prop == "C13":
         solos = []
         for i, a in enumerate(spec["actors"]):
@@ -119,9 +124,14 @@ def evaluate(spec):
         spec["max_steps"] = 20 * sum(s["steps"] for s in solos) + 200_000
         result = run_spec(spec)
         viols = c13.judge(spec, result, solos)
+        info = {"solos": solos}
         if not spec.get("recursion_delta"):
-            viols += _recursion_recheck(spec, c13.rec_mismatches(spec, result, solos), "diverge:recursion")
-        return viols, result, {"solos": solos}
+            mm = c13.rec_mismatches(spec, result, solos)
+            extra = _recursion_recheck(spec, mm, "diverge:recursion")
+            viols += extra
+            info["rec_mismatches"] = len(mm)
+            info["rec_mismatches_not_robust"] = len(mm) - len(extra)
+        return viols, result, info
     raise HarnessError("unknown property %r" % prop)
 
 
@@ -179,10 +189,12 @@ def _one_run(prop, seed, index, cfg, t0):
         rng = rng_for("run", prop, seed, index)
         mod = c12 if prop == "C12" else c13
         n_sweep = min(int(cfg.get("n_sweep", {}).get(prop, 0)), sweep.n_cases(prop))
-        if index < n_sweep:
-            # systematic part: enumerated fault / pre-emption points (sim/sweep.py)
+        if index < 2 * n_sweep and index % 2 == 0:
+            # systematic part: enumerated fault / pre-emption points (sim/sweep.py);
+            # even run indices until the slice is used up, so that the seeded random
+            # search (odd indices) starts at once
             start, stride, n = sweep.order(prop, seed)
-            case = (start + index * stride) % n
+            case = (start + (index // 2) * stride) % n
             spec = sweep.spec_for(prop, case)
             spec["sweep_case"] = case
         else:
@@ -206,7 +218,7 @@ def _one_run(prop, seed, index, cfg, t0):
         )
         if viols:
             summ["spec"] = finalise_spec(spec, result)
-        elif index < cfg.get("n_samples", 3) or n_sweep <= index < n_sweep + cfg.get("n_samples", 3):
+        elif index < 2 * cfg.get("n_samples", 3):
             summ["sample"] = mod.sample_view(spec, result)
         return summ
     except HarnessError as e:
